@@ -698,6 +698,14 @@ def _scenario_real_multi(case, res, log):
             want = T.mac_subsequent(secret, alg, prior, [], stripped, ff["orig_id"], ff["time"], ff["fudge"])
         if want != ff["mac"]:
             raise Violation("C14:mac-differs-from-rfc", f"{tag}: envelope {i} MAC differs from the RFC 8945 HMAC ({'first' if i == 0 else 'subsequent: prior MAC + message + timers'})")
+        if i == 0:
+            # a second attempt at the first envelope with the same message object (tsig_ctx=None): it
+            # is a first envelope again, not a continuation of its own earlier rendering
+            w2 = m.to_wire(multi=True, tsig_ctx=None)
+            s2, f2 = T.split_tsig(w2)
+            if f2 is None or f2["mac"] != T.mac_single(secret, kn, alg, s2, f2["orig_id"], f2["time"], f2["fudge"], f2["error"], f2["other"], f["mac"]):
+                raise Violation("C14:mac-differs-from-rfc", f"{tag}: the first envelope rendered a second time from the same message object (tsig_ctx=None) is not signed as a first envelope")
+            ctx = m.tsig_ctx
         prior = ff["mac"]
     res.probes.inc("real_multi_sign_verified_by_reference")
     res.probes.inc("mac_equal_reference")
